@@ -73,3 +73,9 @@ Print Assumptions C08_document_iterators_rewind_partial.
 Theorem C08_parsers_strict_partial : parser_strict Gen_C08.parsers = true.
 Proof. exact Inst_C08.parser_strict_ok. Qed.
 Print Assumptions C08_parsers_strict_partial.
+
+(* the refusals implemented by the exportHdf5 methods of the current tree are exactly the ones the natural-failure
+   documents of the check exercise (each of which must raise and leave everything clean on the real code) *)
+Theorem C08_refusals_are_the_exercised_ones_partial : Gen_C08.refusals = Gen_C08.expected_refusals.
+Proof. exact (refusals_eqb_eq _ _ Inst_C08.refusals_ok). Qed.
+Print Assumptions C08_refusals_are_the_exercised_ones_partial.
